@@ -461,6 +461,12 @@ func runC14(r *Run) {
 		}
 		r.R.Check(ok, P+".role.readFromCAS.before", "E2 Before: Decompress is only given bytes with len ≤ limit", core.FuncName(f), r.where(f), "decompressing an oversized file defeats the pre-decompression limit", "bounded before decompression", strings.Join(det, "; "))
 	}
+	// the decompressed-size limit is only as good as the decompressor: what it returns is the whole decompressed
+	// stream (a reader capped inside Decompress would hand back a silently truncated prefix that passes the limit)
+	if dz := r.fn(P, pkgCompression+"/gzip", "Algorithm.Decompress"); dz != nil {
+		r.requireSucc(P+".decompress.whole", "if this fails, a file that decompresses to more than limit × factor is cut to an acceptable prefix inside the decompressor and then accepted", dz, core.Ctx{}, "",
+			"cmp(<result> == io.ReadAll(compress/gzip.NewReader(_)))")
+	}
 	// E3: operators and roles of the file-size parameters
 	sinks, reads := r.protocolSinks()
 	r.R.SetCount("E3 protocol parameter reads followed", reads)
